@@ -1,10 +1,9 @@
 """Attribution of C08 failures to entries of known_findings.json.  Every function recognises exactly one defect
-from the failing record itself (exact structural signature, or the outcome of an in-memory repair that the check
-ran in a worker and stored in the record); anything else of the same kind stays a violation.
+from the failing record itself (the outcome of an in-memory repair that the check ran in a worker and stored in the
+record); anything else of the same kind stays a violation.
 
-F6  — `Bernoulli.get_moment(_)` returns `p` for every order, also for k = 0 where the true moment is 1.
-      Signature: family Bernoulli, order exactly 0, the reported value equals the parameter p, the true value is 1,
-      and every other order of the same object agreed with the specification.
+(F6 Bernoulli.get_moment(0), F41 DiscreteUniform.cf(0)/mgf(0) and F43 _reduce_powers were repaired in /repo —
+commits 32294d7, 2c880c9, e1efeb4 — and are no longer excused: a recurrence is a VIOLATION.)
 
 F40 — `TruncNormal.get_moment` evaluates its erf recursion in binary double precision (`float(m[k].simplify())`)
       and returns the decimal expansion of that double as an "exact" rational.  In the tail or for higher orders
@@ -12,40 +11,12 @@ F40 — `TruncNormal.get_moment` evaluates its erf recursion in binary double pr
       Attribution by in-memory repair: the same recursion of the same class with the final `float` replaced by a
       60-digit evaluation (harness.tasks.c08:truncnormal_repaired) agrees with the quadrature to 1e-25.
 
-F41 — `DiscreteUniform.cf(0)` / `.mgf(0)` evaluate the closed geometric-sum formula at its removable singularity:
-      0/0 = nan instead of 1 (Uniform special-cases t = 0, DiscreteUniform does not).
-      Signature: family DiscreteUniform, observable cf or mgf at t = 0, reported value undefined (nan/zoo), and the
-      limit of the very same expression at 0 is 1.
-
 F42 — `get_moment` is wrapped in functools.lru_cache keyed on (self, k) but `subs` mutates the parameters of self:
       get_moment(k) → subs(σ) → get_moment(k) returns the stale pre-substitution value.
       Attribution by in-memory repair: after `type(d).get_moment.cache_clear()` the same object returns the value
       of a fresh object substituted before its first call, and that value is the specification moment.
-
-F43 — `RecBuilder._reduce_powers` hands an expression that is not fully expanded to `get_terms_with_vars`, which reads
-      every factor that mentions a finite variable as a power of that variable: after DistTransformer has rewritten
-      `Normal(mu, s2(u))` with a finite-typed `u` to `mu + sqrt(s2(u))·t`, the square contains the factor `(1 + u)`
-      (symengine leaves `sqrt(1+u)**2·t**2` as `(1 + u)*t**2`), which is read as `u`: the constant part is lost.
-      Attribution by in-memory repair: the same pipeline with `_reduce_powers` expanding its argument first
-      (harness.tasks.c08:analyze_repaired) reports exactly the specification value.
 """
 from fractions import Fraction as Fr
-
-
-def bernoulli_m0(prop, record):
-    if prop != "C08" or record.get("kind") != "moment" or record.get("name") != "Bernoulli":
-        return None
-    try:
-        if int(record.get("k", -1)) != 0 or Fr(record["expected"]) != 1:
-            return None
-        p = Fr(record["values"][0])
-        if Fr(record["actual"]) != p or p == 1:
-            return None
-    except Exception:  # noqa
-        return None
-    if record.get("other_orders_agree") is not True:
-        return None
-    return f"Bernoulli({record['params'][0]}).get_moment(0) = p = {record['actual']} instead of 1 (returns p for every order)"
 
 
 def truncnormal_double(prop, record):
@@ -66,22 +37,6 @@ def truncnormal_double(prop, record):
             "the same recursion evaluated with 60 digits agrees with the quadrature")
 
 
-def discrete_uniform_at0(prop, record):
-    if prop != "C08" or record.get("kind") != "transform-at0" or record.get("name") != "DiscreteUniform":
-        return None
-    if record.get("which") not in ("cf", "mgf"):
-        return None
-    act = record.get("actual") or []
-    if not act or act[0] != "undefined":
-        return None
-    try:
-        if Fr(record.get("limit_value")) != 1 or record.get("limit_method") not in ("series", "limit"):
-            return None
-    except Exception:  # noqa
-        return None
-    return f"DiscreteUniform.{record['which']}(0) is {act[1]} (0/0 of the closed geometric-sum formula) instead of 1"
-
-
 def stale_cache(prop, record):
     if prop != "C08" or record.get("kind") != "subs":
         return None
@@ -92,17 +47,3 @@ def stale_cache(prop, record):
         return None
     return (f"{record['name']}.get_moment is lru_cached on (self, k) but subs() mutates self: "
             f"get_moment({record['k']}) after subs returns the pre-substitution value; correct after cache_clear()")
-
-
-def reduce_powers_unexpanded(prop, record):
-    if prop != "C08" or record.get("kind") != "pipeline":
-        return None
-    rep = record.get("repaired")
-    try:
-        if not rep or rep[0] != "q" or Fr(rep[1]) != Fr(record["expected"]) or Fr(record["actual"]) == Fr(record["expected"]):
-            return None
-    except Exception:  # noqa
-        return None
-    return (f"`{record.get('tag')}`: E({record['goal']})({record['n']}) = {record['actual']} instead of {record['expected']}: "
-            "RecBuilder._reduce_powers / get_terms_with_vars mis-read the unexpanded factor left by sqrt(variance)**2 "
-            "(finite-typed variable in the variance of a rewritten Normal); correct when the expression is expanded first")
